@@ -102,6 +102,7 @@ def placements():
                 {'k': 'pipe', 'xs': [L12, {'k': 'iter', 's': r, 'map': False}, b, LIST]},
                 {'k': 'pipe', 'xs': [L12, {'k': 'fill', 's': {'k': 'iter', 's': r, 'map': True}}, b, LIST, r]},
             ]
+        shapes += skip_shapes(b, r)
         for sh in shapes:
             for scope in ([], [['k1', {'s': 'outer'}]]):
                 yield {'spec': sh, 'target': {'i': 4}, 'scope': scope}
@@ -128,9 +129,63 @@ def placements():
                                                    [{'k': 'str', 's': 'w'}, {'k': 'aVar', 'var': 'vv', 'name': 'k1'}],
                                                    [{'k': 'str', 's': 'after'}, {'k': 'sVarRead', 'var': 'vv', 'name': 'k1'}]]}]},
     ]
+    # the binders that take two steps or bind a named spec, each followed by a skipped step
+    SK = V({'sent': 'SKIP'})
+    VV = {'k': 'sBind', 'bs': [['vv', {'k': 'vars', 'defaults': []}]]}
+    W1, R1 = {'k': 'aVar', 'var': 'vv', 'name': 'k1'}, {'k': 'sVarRead', 'var': 'vv', 'name': 'k1'}
+    RD = lambda body: {'k': 'ref', 'name': 'r', 'sub': body}
+    RU = {'k': 'ref', 'name': 'r', 'sub': None}
+    extra += [
+        {'k': 'tuple', 'xs': [VV, SK, W1, SK, R1]},
+        {'k': 'pipe', 'xs': [VV, W1, SK, SK, {'k': 'dict', 'es': [[{'k': 'str', 's': 'x'}, R1]]}]},
+        {'k': 'tuple', 'xs': [VV, SK, W1, V({'sent': 'STOP'}), R1]},
+        {'k': 'tuple', 'xs': [RD(V({'s': 'body'})), SK, RU]},
+        {'k': 'pipe', 'xs': [RD(V({'s': 'outer-body'})), RD({'k': 'fn', 'name': 'f1', 'kind': 'wrap'}), SK, RU]},
+        {'k': 'tuple', 'xs': [RD(T0), RD(SK), RU]},                   # a Ref definition that is itself skipped
+        {'k': 'tuple', 'xs': [{'k': 'specW', 's': SK, 'scope': [['k1', {'s': 'by-skipped-step'}]]}, R('k1')]},
+    ]
     for sh in extra:
         for scope in ([], [['k1', {'s': 'outer'}], ['k2', {'s': 'outer2'}]]):
             yield {'spec': sh, 'target': {'i': 4}, 'scope': scope}
+
+
+def skip_shapes(b, r):
+    """a binder step b directly followed by steps evaluating to SKIP, then the reader r: a binding is visible
+    to ALL later steps of the chain -- SKIP only keeps the previous result as the target, the skipped
+    step's finished scope is still the link the next step chains from.  Every SKIP-yielding shape once,
+    then Val(SKIP) in every placement (twice, before a pass-through step, after one, before a nested
+    reader, in a Pipe, after an inner binding shadowing an earlier one, first, last, inside a nested
+    chain), and STOP right after the binder (nothing later runs).  The target 4 is truthy."""
+    T0 = {'k': 't', 'steps': []}
+    SK = {'k': 'val', 'v': {'sent': 'SKIP'}}
+    LSK = {'k': 'lit', 'v': {'sent': 'SKIP'}}
+    ST = {'k': 'val', 'v': {'sent': 'STOP'}}
+    C = lambda subs, d: {'k': 'coalesce', 'subs': subs, 'dflt': d, 'dflt_factory': None, 'skip': None, 'skip_exc': ['GlomError']}
+    skippers = [SK, {'k': 'fn', 'name': 'fs', 'kind': 'skip_if_truthy'}, C([{'k': 'str', 's': 'zz'}], SK), C([], LSK),
+                {'k': 'specW', 's': SK, 'scope': []}, {'k': 'or', 'cs': [{'k': 'str', 's': 'zz'}], 'dflt': LSK},
+                {'k': 'switch', 'cases': [[T0, SK]], 'dflt': None}, {'k': 'auto', 's': SK},
+                {'k': 'ref', 'name': 'rs', 'sub': SK}]
+    OUT = {'k': 'sBind', 'bs': [['k1', {'k': 'lit', 'v': {'s': 'earlier'}}]]}
+    out = [{'k': 'tuple', 'xs': [b, sk, r]} for sk in skippers]
+    out += [
+        {'k': 'pipe', 'xs': [b, SK, r]},
+        {'k': 'tuple', 'xs': [b, SK, SK, r]},
+        {'k': 'tuple', 'xs': [b, SK, T0, r]},
+        {'k': 'tuple', 'xs': [b, T0, SK, r]},
+        {'k': 'tuple', 'xs': [b, SK, {'k': 'dict', 'es': [[{'k': 'str', 's': 'x'}, {'k': 'tuple', 'xs': [T0, r]}],
+                                                          [{'k': 'str', 's': 'y'}, C([r], {'k': 'lit', 'v': {'s': 'unbound'}})]]}]},
+        {'k': 'tuple', 'xs': [OUT, b, SK, r]},
+        {'k': 'pipe', 'xs': [OUT, SK, b, SK, r]},
+        {'k': 'tuple', 'xs': [SK, b, r]},
+        {'k': 'tuple', 'xs': [b, r, SK]},
+        {'k': 'tuple', 'xs': [b, SK]},
+        {'k': 'tuple', 'xs': [b, {'k': 'tuple', 'xs': [T0, SK]}, r]},
+        {'k': 'tuple', 'xs': [{'k': 'tuple', 'xs': [b, SK]}, C([r], {'k': 'lit', 'v': {'s': 'unbound'}})]},
+        {'k': 'tuple', 'xs': [b, ST, r]},
+        {'k': 'pipe', 'xs': [b, C([{'k': 'str', 's': 'zz'}], ST), r]},
+        {'k': 'tuple', 'xs': [b, SK, ST, r]},
+    ]
+    return out
 
 
 def gen_optdefault(rng):
@@ -208,7 +263,7 @@ def generate(rng, tier, scale, **focus):
             yield gen_optdefault(rng)
             continue
         g = Gen(rng, {'extra': ['bindchain', 'bindchain', 'bindchain', 'reader', 'reader', 'binder', 'and', 'not',
-                                'switch', 'matchdict', 'ref'], 'scope': True})
+                                'switch', 'matchdict', 'ref', 'skipchain'], 'scope': True})
         t = g.target()
         depth = rng.choice([1, 2, 2, 3]) if tier == 'quick' else rng.choice([2, 3, 3, 4])
         spec = g.spec(t, depth)
@@ -218,6 +273,9 @@ def generate(rng, tier, scale, **focus):
         elif q < 0.43:
             # a Match dict over a target with several items (sibling items of a binding key)
             spec = g.s_matchdict(t, depth)
+        elif q < 0.55:
+            # binder, step(s) evaluating to SKIP (or STOP), readers
+            spec = g.s_skipchain(t, depth)
         scope = []
         if rng.random() < 0.4:
             for name in rng.sample(g.POOL, rng.randint(1, 2)):
